@@ -2,5 +2,5 @@
 # tools/mut.sh <sed-expr> <file-in-repo> <check ids...> : apply a one-line mutation to /repo, run quick checks, revert.
 expr=$1; file=$2; shift 2
 cd /repo && sed -i "$expr" "$file" && git diff --stat | tail -1
-for id in "$@"; do (cd /verif && ./check $id quick 2>&1 | grep -E "^(VIOLATION|HELD|KNOWN|BROKEN|BUILD)" | sort | uniq -c | head -5); done
+for id in "$@"; do (cd /verif && timeout 900 ./check $id quick 2>&1 | grep -E "^(VIOLATION|HELD|KNOWN|BROKEN|BUILD)" | sort | uniq -c | head -5); done
 git -C /repo checkout -- .
